@@ -20,6 +20,7 @@ def parseStep (st : String) : Option Step :=
   | ["get", k] => some (.get k)
   | ["evt", n, v] => some (.evt n v)
   | ["fail"] => some .fail
+  | ["failx"] => some .fail      -- a failure whose error text is not valid UTF-8: a failure like any other
   | ["panic"] => some .panic
   | ["nop"] => some .nop
   | ["mv", a, b, n] => n.toInt?.map (fun n => .mv a b n)
